@@ -34,6 +34,8 @@ def main_texts(pool: dict[str, Any], rng: random.Random) -> list[str]:
 	texts.append('class Rec:\n\tdef f(self) -> int:\n\t\treturn 1\ndef g(a: Rec, u: Undefined) -> None:\n\tx = a.f()\n\tprint(x)')
 	texts.append("class Rec:\n\tdef f(self) -> str:\n\t\treturn 's'\ndef g(a: Rec) -> None:\n\tx = a.f()\n\tprint(x)")
 	texts.append('class Rec:\n\tdef f(self) -> float:\n\t\treturn 1.5\ndef g(a: Rec) -> None:\n\tx = a.f()\n\tprint(x)')
+	# rejected only after templates that emit include dependencies were rendered (string / float literals first, the unknown name last)
+	texts.append("def late(k: int) -> int:\n\ts = 'x'\n\tf = 1.5\n\treturn undefined_name + k")
 	texts.append("def lone(k: int) -> int:\n\ts = 'x'\n\tn = len(s)\n\treturn k + n")
 	texts.append('def lone2(k: int) -> float:\n\tf = 1.5\n\treturn f')
 	texts.append('def bad(k: int) -> int:\n\treturn undefined_name + k')
@@ -397,6 +399,8 @@ class C04(Engine):
 			cases.append({'pool': pool, 'flavour': 'interactive', 'cache': 'lib', 'ops': [S(texts[-2]), S(texts[len(mods) - 1]), S(texts[-2]), S(texts[0])]})
 			same_shape = [t for t in texts if t.startswith('class Alpha') or t.startswith('class Beta') or t.startswith('class Gamma')]
 			cases.append({'pool': pool, 'flavour': 'interactive', 'cache': 'lib', 'ops': [S(same_shape[0]), S(same_shape[1]), S(same_shape[2]), S(same_shape[0])]})
+			late = [t for t in texts if t.startswith('def late')]
+			cases.append({'pool': pool, 'flavour': 'interactive', 'cache': 'lib', 'ops': [S(same_shape[0]), S(late[0]), S(same_shape[0]), S(late[0]), S(late[0]), S(same_shape[1])]})
 			rec = [t for t in texts if t.startswith('class Rec')]
 			cases.append({'pool': pool, 'flavour': 'interactive', 'cache': 'lib', 'ops': [S(rec[0]), S(rec[1]), S(rec[1])]})
 			cases.append({'pool': pool, 'flavour': 'interactive', 'cache': False, 'ops': [S(rec[2]), S(rec[0]), S(rec[0]), S(rec[1]), S(rec[2])]})
